@@ -152,17 +152,18 @@ var checkLog = ev.Register("log", func(c *LogCase) ev.Outcome {
 	if !cl.Clamp || s.Clamp {
 		return ev.Fail("SetClamp")
 	}
-	// wrong sign and zero
+	// wrong sign and zero, clamped or not
 	for _, bad := range []float64{0, -lo, -hi, math.Copysign(1, -lo)} {
-		if v := s.Map(bad); !math.IsNaN(v) {
-			return ev.Fail("Map(%v) = %v on the domain [%v,%v], want NaN", bad, v, lo, hi)
+		if v, vc := s.Map(bad), cl.Map(bad); !math.IsNaN(v) || !math.IsNaN(vc) {
+			return ev.Fail("Map(%v) = %v (clamped: %v) on the domain [%v,%v], want NaN", bad, v, vc, lo, hi)
 		}
 	}
 	if lo == hi {
-		for _, x := range c.Xs {
+		// inside, at and beyond the single point, clamped or not
+		for _, x := range append(append([]float64(nil), c.Xs...), lo, lo*2, lo/2, math.Nextafter(lo, 0), math.Nextafter(lo, 2*lo)) {
 			if (x < 0) == neg && x != 0 {
-				if s.Map(x) != 0.5 {
-					return ev.Fail("degenerate domain: Map(%v) = %v", x, s.Map(x))
+				if s.Map(x) != 0.5 || cl.Map(x) != 0.5 {
+					return ev.Fail("degenerate domain: Map(%v) = %v, clamped %v", x, s.Map(x), cl.Map(x))
 				}
 			}
 		}
